@@ -4,6 +4,7 @@ import CbiVerif.Lemmas.FindFold
 import CbiVerif.Lemmas.FindInst
 import CbiVerif.Lemmas.FindCache
 import CbiVerif.Lemmas.FindCacheMono
+import CbiVerif.Props.C08Engines
 
 /-!
 # C08 — translation units and platforms are analysed in isolation and compose
@@ -13,7 +14,9 @@ Property theorems only.  Part 1 is about the generic double fold
 `Platform` per command, the association only grows) and holds for EVERY single-command
 analysis `analyse : Entry → Except Err (Out Key Warn)`.  Part 2 specialises them to
 `FindInst.findI`, the instance the native driver executes for the correspondence check
-(`analyse := FindInst.analyseEntry fs`, built from the executable preprocessor model).
+(`analyse := FindInst.analyseEntry fs` = the total engine of `Model/Exclude.lean` under the C-family semantics
+`FindInst.semPP fs`; `Props/C08Engines.lean` — imported here so that it is built and audited with this file —
+proves that it is that engine, and that it agrees with the records the other ops run).
 
 `Attr r p k` = "platform `p` uses node `k` in result `r`".
 -/
@@ -359,45 +362,40 @@ theorem find_projection (fs : FSMap) (cb : List String) (c : Config PP.Entry)
   obtain ⟨rX, hrX, hp⟩ := projection _ c r hfind X
   exact ⟨rX, (findI_ok fs cb _ rX).mpr ⟨prepare_select fs cb c X hprep, hrX⟩, hp⟩
 
+/-- the state-threading run of the same instance (one parse cache shared by all commands; field `pp` of op `c08find`)
+equals the stateless reference as well: by `findI_eq_cached` (`Props/C08Engines.lean`) it IS `findI`, so every theorem of
+this part is a theorem about it -/
+theorem findPP_eq_spec (fs : FSMap) (cb : List String) (c : Config PP.Entry) :
+    findPP CbiVerif.Exclude.defaultFuel fs cb c = specI fs cb c := by
+  rw [← findI_eq_cached, ← findI_default_fuel, findI_eq_specI]
+
 /-! ### non-vacuity of Part 2
 
-The hypotheses `findI … = .ok r` are satisfiable: the following runs are EVALUATED at
-compile time (`#guard`; a test, not a proof).  They stay `#guard`s although the macro expander is now
-the total `MX.cbiExpand` (`PP.condValue`): `findI` is the instance over the design-phase multi-file
-visitor `PP.assocFile` (`PP/Find.lean`), whose recursion through `#include` is a `partial def`
-(the total, fuelled counterpart is `FindCache.findC` of Part 3, which the driver also executes and
-compares); and even `findC (semC fs)` does not reduce in the kernel, because the path functions of the
-file-system layer (`normpath`, `dirname`, `splitext`: `String.splitOn`, defined by well-founded
-recursion) get stuck there.  `h.h` is protected by `#pragma once`, defines
+The hypotheses `findI … = .ok r` are satisfiable: the following runs are kernel-checked
+(`decide +kernel`; they were `#guard`s while `findI` ran the design-phase visitor `PP.assocFile`, a
+`partial def`, and the path functions were built on `String.splitOn`).  `findI` is now an instance of the
+total, fuelled engine of `Model/Exclude.lean` (`FindInst.semPP`; `Props/C08Engines.lean`), the expander is the total
+`MX.cbiExpand` (`PP.condValue`), and `normpath` / `dirname` / `splitext` are structural, so the whole run —
+lexing, parsing, tree building, include search, macro expansion, expression evaluation — reduces in the kernel,
+with the driver's default fuel.  `h.h` is protected by `#pragma once`, defines
 `H`, and shows different lines depending on `A`; it is re-processed for every command. -/
 
-def demoFs : FSMap := [
-  ("/r/inc/h.h", "#pragma once\n#ifdef A\nint a;\n#else\nint b;\n#endif\n#define H 1\n"),
-  ("/r/a.c", "#include \"inc/h.h\"\n#ifdef H\nint x;\n#endif\n"),
-  ("/r/b.c", "#include <h.h>\n#if defined(H) && A > 1\nint y;\n#endif\n")]
-def demoCb : List String := ["/r/a.c", "/r/b.c", "/r/inc/h.h"]
-def demoA : PP.Entry := { file := "/r/a.c", defines := ["A"], includePaths := [], includeFiles := [] }
-def demoB : PP.Entry := { file := "/r/b.c", defines := ["A=2"], includePaths := ["/r/inc"], includeFiles := [] }
-def demoG : PP.Entry := { file := "/r/a.c", defines := [], includePaths := [], includeFiles := [] }
-def demoCfg : Config PP.Entry := [("cpu", [demoA, demoB]), ("gpu", [demoG])]
-
-def okWith (r : Except PP.Err (Acc NodeKey PP.Warn)) (n : Nat) (has : List (NodeKey × String))
-    (hasNot : List (NodeKey × String)) : Bool :=
-  match r with
-  | .ok a => a.pairs.length == n && has.all (fun kp => a.pairs.contains kp) &&
-      hasNot.all (fun kp => !a.pairs.contains kp)
-  | .error _ => false
+-- the demo code base `demoFs` / `demoCb` / `demoCfg` and the checker `okWith` are defined in `Props/C08Engines.lean`
 
 -- full run: 30 attributions; `int a;` (node 2 of h.h) is cpu's, `int b;` (node 4) is gpu's
-#guard okWith (findI demoFs demoCb demoCfg) 30
-  [(("/r/inc/h.h", 2), "cpu"), (("/r/inc/h.h", 4), "gpu"), (("/r/b.c", 2), "cpu")]
-  [(("/r/inc/h.h", 4), "cpu"), (("/r/inc/h.h", 2), "gpu")]
+example : okWith (findI demoFs demoCb demoCfg) 30
+    [(("/r/inc/h.h", 2), "cpu"), (("/r/inc/h.h", 4), "gpu"), (("/r/b.c", 2), "cpu")]
+    [(("/r/inc/h.h", 4), "cpu"), (("/r/inc/h.h", 2), "gpu")] = true := by decide +kernel
 -- single-command runs and the selection `-p gpu`
-#guard okWith (findI demoFs demoCb [("cpu", [demoA])]) 10 [(("/r/inc/h.h", 2), "cpu")] []
-#guard okWith (findI demoFs demoCb [("cpu", [demoB])]) 10 [(("/r/b.c", 2), "cpu")] []
-#guard okWith (findI demoFs demoCb (select ["gpu"] demoCfg)) 10 [(("/r/inc/h.h", 4), "gpu")] [(("/r/inc/h.h", 2), "cpu")]
+example : okWith (findI demoFs demoCb [("cpu", [demoA])]) 10 [(("/r/inc/h.h", 2), "cpu")] [] = true := by
+  decide +kernel
+example : okWith (findI demoFs demoCb [("cpu", [demoB])]) 10 [(("/r/b.c", 2), "cpu")] [] = true := by
+  decide +kernel
+example : okWith (findI demoFs demoCb (select ["gpu"] demoCfg)) 10 [(("/r/inc/h.h", 4), "gpu")]
+    [(("/r/inc/h.h", 2), "cpu")] = true := by decide +kernel
 -- a permuted configuration
-#guard okWith (findI demoFs demoCb [("gpu", [demoG]), ("cpu", [demoB, demoA])]) 30 [(("/r/inc/h.h", 2), "cpu")] []
+example : okWith (findI demoFs demoCb [("gpu", [demoG]), ("cpu", [demoB, demoA])]) 30
+    [(("/r/inc/h.h", 2), "cpu")] [] = true := by decide +kernel
 
 /-! ## Part 3 — the code's actual shared state: the parse cache (`FindCache.findC`)
 
@@ -590,8 +588,7 @@ example : (finalCache toyL 8 toyCb toyCfgOK).map (fun e => (e.1, e.2.1)) =
 
 def nkeys (r : Except PP.Err (Out FindCache.NodeKey PP.Warn)) : Nat :=
   match r with | .ok o => o.keys.length | .error _ => 0
-def npairs (r : Except PP.Err (Acc FindCache.NodeKey PP.Warn)) : Nat :=
-  match r with | .ok a => a.pairs.length | .error _ => 0
+-- `npairs` (number of attribution pairs of a run, 0 for a failed one) is defined in `Props/C08Engines.lean`
 
 /-- **F-C08-1 = D19, one command**: from the empty cache, `e.f90` reaches `h.h` (C by extension) and
 parses it as Fortran — 4 nodes visited; the cache-free analysis parses it as C — 3 nodes. -/
@@ -656,7 +653,8 @@ under any class.  Then no run ever logs a mixing event, every cached tree is rec
 (`FindCache.InvMono`), and the parse cache is LITERALLY transparent — `transparent_state_refines`
 applies as it stands.  (For the driver's semantics `semC fs` the condition is not satisfiable, because
 the extension table is global — `x.f90` is Fortran whether or not it exists; there the applicable
-hypothesis is the run-time `NoMix`.) -/
+hypothesis is the run-time `NoMix`.  It IS satisfied by the C-family instance `FindInst.semPP fs` that
+`findI` is built on: `findI_eq_cached` in `Props/C08Engines.lean`.) -/
 
 /-- **cache_transparent, one language class**: `Transparent`, no flag -/
 theorem cache_transparent_oneclass (S : Sem) (cl0 : LClass) (hS : FindCache.OneClass S cl0) (n : Nat) :
